@@ -66,21 +66,29 @@ class Cfg:
 
 
 def ops_of(events):
-    """group events by (inst, op) in order of appearance; returns list of (key, [events])"""
-    out, cur, key = [], None, None
+    """group events by (inst, op) in order of appearance; returns list of (key, [events]).  Log records carry no
+    op number: one written after an op's closing `api` / `rejected` line belongs to the next op."""
+    out, cur, key, pending, closed = [], None, None, [], True
     for e in events:
         if e.kind == "log":
-            if cur is not None:
-                cur.append(e)
+            if cur is None or closed:
+                pending.append(e)
             else:
-                out.append(((e.inst, -1), [e]))
+                cur.append(e)
             continue
         k = (e.inst, e.op)
         if k != key:
-            cur = []
+            cur = pending
+            pending = []
             key = k
             out.append((k, cur))
+        elif pending:
+            cur.extend(pending)
+            pending = []
         cur.append(e)
+        closed = e.kind in ("api", "rejected")
+    if pending:
+        out.append(((pending[0].inst, -1), pending))
     return out
 
 
@@ -281,31 +289,643 @@ def c12(cfg, events):
     return None
 
 
-def c16(cfg, events):
-    """every visible delivery to a state whose class defines the callback is immediately preceded by its
-    method record while the logger is attached; every changeTo/cancel/succeed/fail action is immediately
-    followed by its record"""
-    if not (cfg.log or cfg.verbose):
+# ------------------------------------------------------------------------------------------ helpers (plans / requests)
+PHASE_FAM = {"update": ("preUpdate", "update", "postUpdate"), "react": ("preReact", "react", "postReact")}
+PLAN_METHODS = ("planSucceeded", "planFailed")
+
+
+def case_ops(case):
+    """op lines of a case as word lists; index = op number"""
+    return [l.split()[1:] for l in (case or []) if l.startswith("op ")]
+
+
+def parse_plan(s):
+    if s in (None, "~"):
         return None
-    attached = {}
-    prev = None
-    evs = [e for e in events]
-    for k, e in enumerate(evs):
-        if e.kind == "api":
-            if e.name == "construct":
-                pass
-        prev = e
+    return s.strip("[]").split()
+
+
+def t_origin(t):
+    return int(t.split(">")[0])
+
+
+def t_dest(t):
+    return int(t.split(">")[1].split(":")[0])
+
+
+def eff_cap(cfg):
+    # Q8: TaskCapacityN<255> is the "not configured" sentinel, the capacity is then the state count
+    return cfg.n if cfg.cap == 255 else cfg.cap
+
+
+def remove_masked(plan, mask):
+    out = []
+    for k, t in enumerate(plan):
+        if k < len(mask) and mask[k] == "1":
+            continue
+        out.append(t)
+    return out
+
+
+def apply_plan_edit(cfg, plan, words):
+    """effect of a planAppend / planClear / planRemove (words after the instance id, if any) on the abstract plan"""
+    if words[0] == "planAppend":
+        t = "%s>%s:%s" % (words[1], words[2], words[3] if len(words) > 3 else "-")
+        return plan + [t] if len(plan) < eff_cap(cfg) else plan
+    if words[0] == "planClear":
+        return []
+    if words[0] == "planRemove":
+        return remove_masked(plan, words[1])
+    return plan
+
+
+def is_change(e):
+    return e.kind == "do" and e.text.split()[0] in ("changeTo", "changeWith")
+
+
+def split_cycle(cfg, api_name, evs):
+    """events of one update()/react() op split at the plan step: (phase part, firings [(o, d)], rest)"""
+    fam = PHASE_FAM[api_name]
+    k = 0
+    n = len(evs)
+    while k < n:
+        e = evs[k]
+        if e.kind == "cb" and e.method not in fam:
+            break
+        if e.kind == "api" or e.kind == "rejected":
+            break
+        if e.kind == "log":
+            w = e.text.split()
+            if w[0] == "method" and w[2] not in fam:
+                break
+            if w[0] == "trans" and not (k > 0 and is_change(evs[k - 1])):
+                break
+        k += 1
+    fires = []
+    j = k
+    while j < n and evs[j].kind == "log" and evs[j].text.split()[0] == "trans":
+        w = evs[j].text.split()
+        fires.append((int(w[1]), int(w[2])))
+        j += 1
+    return evs[:k], fires, evs[j:]
+
+
+def expected_run(plan, a):
+    """the tasks FullControlT::updatePlan fires when the active state `a` has a success outstanding: every
+    task from the front whose origin is `a`, up to the first one of another origin, stopping to fire after
+    a cyclic task (its success is consumed on the spot).  Returns (fired indices)"""
+    fired, live = [], True
+    for k, t in enumerate(plan):
+        if t_origin(t) != a:
+            break
+        if live:
+            fired.append(k)
+            if t_dest(t) == a:
+                live = False
+    return fired
+
+
+class PlanTracker:
+    """per-instance bookkeeping shared by the plan oracles, driven by the events of one case in order"""
+
+    def __init__(self, cfg, case):
+        self.cfg, self.ops = cfg, case_ops(case)
+        self.act = {}          # inst -> active id after the last API call
+        self.plan = {}         # inst -> last known plan (list) or None
+
+    def op_words(self, op):
+        return self.ops[op] if 0 <= op < len(self.ops) else []
+
+
+# ------------------------------------------------------------------------------------------ C07
+def c07(cfg, events, case=None):
+    """every transition shown to user code (request / pending / current / previous) was made by somebody with
+    exactly that origin, destination and payload; every task shown in a plan was appended like that; the
+    transition the lifecycle callbacks see as current is the request that survived the guards"""
+    if not cfg.payload:
+        return None
+    ops = case_ops(case)
+    made, tasks = set(), set()
+    done_ops = -1
+    replay_any = any(w and w[0] in ("replayFrom", "replayEnterFrom") for w in ops)
+    if replay_any:
+        for d in range(cfg.n):
+            made.add("255>%d:-" % d)
+    for e in events:
+        if e.kind in ("cb", "do", "api", "rejected") and e.op > done_ops:
+            for k in range(done_ops + 1, min(e.op, len(ops) - 1) + 1):
+                w = ops[k]
+                if w[0] in ("changeTo", "immediateChangeTo", "replayTransition", "replayEnter"):
+                    made.add("255>%s:-" % w[2])
+                elif w[0] in ("changeWith", "immediateChangeWith"):
+                    made.add("255>%s:%s" % (w[2], w[3]))
+                elif w[0] == "planAppend":
+                    t = "%s>%s:%s" % (w[2], w[3], w[4] if len(w) > 4 else "-")
+                    tasks.add(t)
+                    made.add(t)
+            done_ops = max(done_ops, e.op)
+        if e.kind == "do":
+            w = e.text.split()
+            if w[0] == "changeTo":
+                made.add("%d>%s:-" % (e.sid, w[1]))
+            elif w[0] == "changeWith":
+                made.add("%d>%s:%s" % (e.sid, w[1], w[2]))
+            elif w[0] == "planAppend":
+                t = "%s>%s:%s" % (w[1], w[2], w[3] if len(w) > 3 else "-")
+                tasks.add(t)
+                made.add(t)
+        elif e.kind in ("cb", "api"):
+            for fld in ("req", "cur", "pend", "prev"):
+                v = e.f.get(fld)
+                if v in (None, "-", "~"):
+                    continue
+                if v not in made:
+                    return "%s shows the transition %s, but no request with that origin, destination and payload was ever made: %s" % (fld, v, e.raw)
+            pl = parse_plan(e.f.get("plan"))
+            for t in pl or []:
+                if t not in tasks:
+                    return "the plan shows the task %s, but no such task (origin, destination, payload) was ever appended: %s" % (t, e.raw)
+    # the surviving request is what enter()/reenter()/exit() see as current
+    if cfg.all_defined(GUARDS + LIFE) and not any(cfg.inj):
+        for (inst, op), evs in ops_of(events):
+            api = next((e for e in evs if e.kind == "api"), None)
+            if api is None or api.name not in PROCESSING:
+                continue
+            surv = None
+            for r in rounds_of(cfg, evs):
+                if not r["cancelled"] and r["pend"] not in ("-", None):
+                    surv = r["pend"]
+            for e in evs:
+                if e.kind == "cb" and e.layer == "S" and e.method in LIFE and surv is not None and e.f.get("cur") not in (None, "~") and e.f["cur"] != surv:
+                    return "op%d: the request that survived its guards is %s but %s() of state %d sees %s as the current transition" % (op, surv, e.method, e.sid, e.f["cur"])
     return None
 
 
-ORACLES = {"C01": c01, "C02": c02, "C03": c02, "C04": c04, "C05": c05, "C06": c06, "C11": c02, "C12": c12}
+# ------------------------------------------------------------------------------------------ C08 / C09 / C10 (plan oracles)
+def plan_walk(cfg, events, case, want):
+    """one pass over the trace with the bookkeeping the plan oracles need; `want` selects the checks:
+    "C08" firing discipline, "C09" plan outcome callbacks, "C10" the plan as a list with capacity"""
+    if not cfg.plans:
+        return None
+    ops = case_ops(case)
+    act, known = {}, {}
+    consumed = {}          # inst -> {origin: op in which a task of that origin last fired, no success report since}
+    fail_out, succ_out = {}, {}    # inst -> a failure / success report happened since the statuses were last wiped
+    fail_ever = {}
+    appended = {}          # inst -> a task was appended since activation (None = unknown)
+    head_pf = cfg.head and cfg.defined(255, "planFailed")
+    head_ps = cfg.head and cfg.defined(255, "planSucceeded")
+
+    def report(inst, target, ok):
+        if ok:
+            succ_out[inst] = True
+            consumed.setdefault(inst, {}).pop(target, None)
+        else:
+            fail_out[inst] = True
+            fail_ever[inst] = True
+
+    for (inst, op), evs in ops_of(events):
+        if op < 0:
+            continue
+        w = ops[op] if op < len(ops) else []
+        api = next((e for e in evs if e.kind == "api"), None)
+        name = w[0] if w else (api.name if api else "")
+        rejected = any(e.kind == "rejected" for e in evs)
+        # ---- effect of the op itself on the bookkeeping (before its events)
+        if not rejected:
+            if name == "construct":
+                consumed[inst], fail_out[inst], succ_out[inst], fail_ever[inst] = {}, False, False, False
+                appended[inst] = False
+                known[inst] = []
+            elif name == "copy":
+                src = int(w[2]) if len(w) > 2 else None
+                consumed[inst] = dict(consumed.get(src, {}))
+                for d_ in (fail_out, succ_out, fail_ever, appended):
+                    d_[inst] = d_.get(src)
+                known[inst] = list(known[src]) if known.get(src) is not None else None
+            elif name in ("enter", "exit", "load", "destroy"):
+                consumed[inst] = {}
+                if name in ("load", "destroy"):
+                    appended[inst] = None
+                    known[inst] = None
+            elif name in ("succeed", "fail") and len(w) > 2:
+                report(inst, int(w[2]), name == "succeed")
+            elif name in ("planAppend", "planClear", "planRemove"):
+                if name == "planAppend":
+                    appended[inst] = True
+                if known.get(inst) is not None:
+                    known[inst] = apply_plan_edit(cfg, known[inst], [name] + w[2:])
+        cyc = api is not None and api.name in PHASE_FAM and not rejected
+        a = act.get(inst)
+        if cyc:
+            phase, fires, rest = split_cycle(cfg, api.name, evs)
+        else:
+            phase, fires, rest = evs, [], []
+        delivered = []
+        # ---- walk: phase part
+        def see(e):
+            """an observation of the plan; compares with what the list-with-capacity predicts"""
+            pl = parse_plan(e.f.get("plan"))
+            if pl is None:
+                return None
+            k = known.get(inst)
+            if want == "C10" and k is not None and pl != k:
+                return "the plan holds %s, but the appends / removals made so far give %s (capacity %d): %s" % (pl, k, eff_cap(cfg), e.raw)
+            known[inst] = pl
+            return None
+
+        def act_on(e):
+            t = e.text.split()
+            if t[0] in ("succeed", "fail"):
+                report(inst, int(t[1]) if len(t) > 1 else e.sid, t[0] == "succeed")
+            elif t[0] in ("planAppend", "planClear", "planRemove"):
+                if t[0] == "planAppend":
+                    appended[inst] = True
+                if known.get(inst) is not None:
+                    known[inst] = apply_plan_edit(cfg, known[inst], t)
+
+        active_failed = succ_now = False
+        for e in phase:
+            if e.kind == "api" and name in ("exit", "load", "destroy"):
+                known[inst] = None      # the plan is wiped after the callbacks of these calls
+            if e.kind in ("cb", "api"):
+                v = see(e)
+                if v:
+                    return v
+            elif e.kind == "do":
+                act_on(e)
+                t = e.text.split()
+                if cyc and t[0] == "fail" and e.method in PHASE_FAM[api.name] and (int(t[1]) if len(t) > 1 else e.sid) == a and e.sid == a:
+                    active_failed = True
+                if cyc and t[0] == "succeed" and (int(t[1]) if len(t) > 1 else e.sid) == a:
+                    succ_now = True
+                if t[0] == "planClear":
+                    active_failed = succ_now = False     # clear() wipes every status bit
+        if cyc:
+            before = known.get(inst)
+            # ---- the plan step
+            if want == "C08":
+                for (o, d) in fires:
+                    if o != a:
+                        return "op%d: a task %d>%d fired while the active state is %s" % (op, o, d, a)
+                    j = consumed.get(inst, {}).get(o)
+                    if j is not None and j != op:
+                        return "op%d: a task with origin %d fired, but the success report of state %d was already consumed by the task fired in op%d and no new report was made" % (op, o, o, j)
+                if before is not None and a is not None and a != 255:
+                    idx = expected_run(before, a)
+                    exp = [(t_origin(before[k]), t_dest(before[k])) for k in idx]
+                    if fires and fires != exp:
+                        return "op%d: with plan %s and state %d active the tasks fired are %s; the plan order allows exactly %s" % (op, before, a, fires, exp)
+            if want == "C09" and fires and any(e.kind == "cb" and e.method == "planFailed" for e in rest):
+                return "op%d: tasks %s fired in a cycle that delivers planFailed()" % (op, fires)
+            for o, _ in fires:
+                consumed.setdefault(inst, {})[o] = op
+            # ---- after the step
+            first_obs = next((e for e in rest if e.kind in ("cb", "api") and parse_plan(e.f.get("plan")) is not None), None)
+            npf = [e for e in rest if e.kind == "cb" and e.layer == "S" and e.sid == 255 and e.method in PLAN_METHODS]
+            if before is not None and first_obs is not None and a is not None and a != 255:
+                after = parse_plan(first_obs.f.get("plan"))
+                idx = expected_run(before, a)
+                kept = [t for k, t in enumerate(before) if k not in idx]
+                allowed = [before, kept, []]
+                if want == "C08" and after not in allowed:
+                    return "op%d: the plan was %s before the plan step and is %s after it (state %d active): fired tasks must be removed, the others must stay in order (%s)" % (op, before, after, a, kept)
+                if want == "C08" and fires and after != kept:
+                    return "op%d: tasks %s fired but the plan went from %s to %s" % (op, fires, before, after)
+                # converse: first task's origin active and reporting success, no failure reported so far
+                if want == "C08" and before and t_origin(before[0]) == a and succ_now and not fail_ever.get(inst) and after == before and not npf:
+                    return "op%d: the first task %s has the active state as origin and the state reported success in this cycle without any failure report, but no task fired (plan still %s)" % (op, before[0], after)
+                if want == "C09" and before and active_failed and head_pf and not any(e.method == "planFailed" for e in npf):
+                    return "op%d: the plan is %s and the active state %d reported failure in this cycle, but planFailed() was not delivered" % (op, before, a)
+            known[inst] = None
+            # ---- outcome callbacks and the rest of the op
+            n_out = 0
+            wipe = False
+            for k, e in enumerate(rest):
+                if wipe and e.kind not in ("do", "log"):
+                    known[inst] = []        # PlanT::clear() right after the outcome callback returned
+                    wipe = False
+                if e.kind == "cb" and e.layer == "S" and e.sid == 255 and e.method in PLAN_METHODS:
+                    wipe = True
+                    n_out += 1
+                    if want == "C09":
+                        if appended.get(inst) is False:
+                            return "op%d: %s() delivered on a machine to which no task has been added since activation: %s" % (op, e.method, e.raw)
+                        if n_out > 1:
+                            return "op%d: more than one plan outcome callback in one cycle: %s" % (op, e.raw)
+                        if e.method == "planFailed" and fail_out.get(inst) is False:
+                            return "op%d: planFailed() delivered but no failure was reported since the statuses were last cleared: %s" % (op, e.raw)
+                        if e.method == "planSucceeded":
+                            if succ_out.get(inst) is False:
+                                return "op%d: planSucceeded() delivered but no success was reported since the statuses were last cleared: %s" % (op, e.raw)
+                            if parse_plan(e.f.get("plan")):
+                                return "op%d: planSucceeded() delivered while tasks remain: %s" % (op, e.raw)
+                        # after the callback returns the plan is empty (unless the callback itself appends)
+                        nxt = next((x for x in rest[k + 1:] if x.kind in ("cb", "api") and parse_plan(x.f.get("plan")) is not None), None)
+                        if nxt is not None and parse_plan(nxt.f.get("plan")):
+                            return "op%d: the plan is %s after %s() returned: %s" % (op, nxt.f.get("plan"), e.method, nxt.raw)
+                    fail_out[inst] = succ_out[inst] = False
+                    consumed[inst] = {}
+                if e.kind in ("cb", "api"):
+                    v = see(e)
+                    if v:
+                        return v
+                elif e.kind == "do":
+                    act_on(e)
+        if api is not None:
+            act[inst] = int(api.f["act"])
+            if api.name in ("exit",) and not rejected:
+                appended[inst] = False
+    return None
 
 
-def run(prop, cfg_line, impl_lines):
+def c08(cfg, events, case=None):
+    return plan_walk(cfg, events, case, "C08")
+
+
+def c09(cfg, events, case=None):
+    return plan_walk(cfg, events, case, "C09")
+
+
+def c10(cfg, events, case=None):
+    return plan_walk(cfg, events, case, "C10")
+
+
+# ------------------------------------------------------------------------------------------ C16
+def c16(cfg, events, case=None):
+    """log faithfulness on the implementation's own trace: a delivery to a state that defines the callback is
+    announced by exactly its method record right before the user code; every request / cancellation / task
+    report made by user code is followed by its record; nothing is recorded while no logger is attached"""
+    if not cfg.log:
+        return None
+    ops = case_ops(case)
+    attached = {}
+    for (inst, op), evs in ops_of(events):
+        if op < 0:
+            continue
+        w = ops[op] if op < len(ops) else []
+        name = w[0] if w else ""
+        rejected = any(e.kind == "rejected" for e in evs)
+        if not rejected:
+            if name == "construct":
+                attached[inst] = w[2] == "1"
+            elif name == "copy":
+                attached[inst] = attached.get(int(w[2]))
+            elif name == "attachLogger":
+                attached[inst] = w[2] == "1"
+        on = attached.get(inst)
+        if on is None:
+            continue
+        if not on:
+            bad = next((e for e in evs if e.kind == "log" and e.inst == inst), None)
+            if bad:
+                return "op%d: a record is written although no logger is attached to instance %d: %s" % (op, inst, bad.raw)
+            continue
+        for k, e in enumerate(evs):
+            nxt = evs[k + 1] if k + 1 < len(evs) else None
+            if e.kind == "do":
+                t = e.text.split()
+                exp = None
+                if t[0] in ("changeTo", "changeWith"):
+                    exp = "trans %d %s" % (e.sid, t[1])
+                elif t[0] == "cancel":
+                    exp = "cancel %d" % e.sid
+                elif t[0] in ("succeed", "fail"):
+                    exp = "task %s %s" % (t[1] if len(t) > 1 else e.sid, "S" if t[0] == "succeed" else "F")
+                if exp and not (nxt is not None and nxt.kind == "log" and nxt.text == exp):
+                    return "op%d: the action '%s' of state %d is not followed by its record '%s' (next line: %s)" % (op, e.text, e.sid, exp, nxt.raw if nxt else "end of the call")
+            elif e.kind == "cb" and e.layer == "S" and cfg.defined(e.sid, e.method):
+                # first printed line of this delivery: walk back over the injection layers of the same delivery
+                j = k - 1
+                while j >= 0 and evs[j].kind in ("cb", "do", "log") and not (evs[j].kind == "log" and evs[j].text.startswith("method ")) and \
+                        (evs[j].kind != "cb" or (evs[j].sid == e.sid and evs[j].method == e.method and evs[j].layer != "S")):
+                    j -= 1
+                rec = evs[j] if j >= 0 else None
+                if not (rec is not None and rec.kind == "log" and rec.text == "method %d %s" % (e.sid, e.method)):
+                    return "op%d: %s() of state %d runs without its method record right before it: %s" % (op, e.method, e.sid, e.raw)
+            elif e.kind == "log":
+                t = e.text.split()
+                if t[0] == "method" and cfg.all_defined(list(M_INDEX), include_head=True) and cfg.head and not any(cfg.inj):
+                    if not (nxt is not None and nxt.kind == "cb" and nxt.sid == int(t[1]) and nxt.method == t[2]):
+                        return "op%d: the record '%s' is not followed by that delivery (next line: %s)" % (op, e.text, nxt.raw if nxt else "end of the call")
+    # verbose: a planSucceeded record while tasks remain and nothing fired cannot be a delivery that happened
+    v = None
+    if cfg.plans and cfg.verbose:
+        v = plan_records(cfg, events, case)
+    return v
+
+
+def plan_records(cfg, events, case):
+    ops = case_ops(case)
+    known = {}
+    for (inst, op), evs in ops_of(events):
+        api = next((e for e in evs if e.kind == "api"), None)
+        if api is None or api.name not in PHASE_FAM:
+            continue
+        phase, fires, rest = split_cycle(cfg, api.name, evs)
+        obs = [e for e in phase if e.kind == "cb" and parse_plan(e.f.get("plan")) is not None]
+        if not obs:
+            continue
+        last = obs[-1]
+        tail = phase[phase.index(last) + 1:]
+        if any(e.kind == "do" and e.text.split()[0].startswith("plan") for e in tail):
+            continue
+        before = parse_plan(last.f.get("plan"))
+        recs = [e for e in rest if e.kind == "log" and e.text.startswith("method 255 plan")]
+        for r in recs:
+            if r.text.endswith("planSucceeded") and before and not fires:
+                return "op%d: the log records planSucceeded() for the root although the plan still holds %s and no task fired in this cycle" % (op, before)
+            break
+    return None
+
+
+# ------------------------------------------------------------------------------------------ C17 (observational equality at the moment of copying)
+def c17(cfg, events, case=None):
+    ops = case_ops(case)
+    last_api = {}
+    for e in events:
+        if e.kind != "api":
+            continue
+        if e.name == "copy" and e.op < len(ops):
+            src = int(ops[e.op][2])
+            s = last_api.get(src)
+            if s is not None:
+                for fld in ("act", "isA", "prev", "plan", "mact"):
+                    if s.f.get(fld) != e.f.get(fld):
+                        return "op%d: the copy of instance %d differs from it at the moment of copying: %s is %s in the original and %s in the copy" % (e.op, src, fld, s.f.get(fld), e.f.get(fld))
+        if e.name == "destroy":
+            last_api.pop(e.inst, None)
+        else:
+            last_api[e.inst] = e
+    return None
+
+
+# ------------------------------------------------------------------------------------------ metamorphic twins (implementation only)
+def strip_logs(lines):
+    return [l for l in lines if not l.startswith("log ")]
+
+
+def twin_nolog(case):
+    """the same case with no logger ever attached"""
+    out = []
+    for l in case:
+        w = l.split()
+        if l.startswith("op construct ") and len(w) >= 4:
+            w[3] = "0"
+        elif l.startswith("op attachLogger "):
+            w[3] = "0"
+        out.append(" ".join(w) if l.startswith("op ") else l)
+    return out
+
+
+def twin_fill(case, byte):
+    out = []
+    for l in case:
+        w = l.split()
+        if l.startswith("op construct ") and len(w) == 5:
+            w[4] = str(byte)
+        elif l.startswith("op copy ") and len(w) == 5:
+            w[4] = str(byte)
+        out.append(" ".join(w) if l.startswith("op ") else l)
+    return out
+
+
+def twin_copy(case, impl_lines=()):
+    """for the first `copy j src` of the case: the history in which, instead of copying, the original itself
+    receives what the copy receives afterwards.  Returns (twin case, j, src, op index of the copy, last compared op) or None"""
+    idx = [k for k, l in enumerate(case) if l.startswith("op ")]
+    ops = [case[k].split()[1:] for k in idx]
+    rej = {int(l.split()[2][2:]) for l in impl_lines if l.startswith("rejected ")}
+    kc = next((k for k, w in enumerate(ops) if w[0] == "copy" and k not in rej), None)
+    if kc is None:
+        return None
+    j, src = int(ops[kc][1]), int(ops[kc][2])
+    if j == src:
+        return None
+    two_inst = ("copy", "load", "replayFrom", "replayEnterFrom")
+    new_ops, last = [list(w) for w in ops], kc
+    new_ops[kc] = ["query", "99"]
+    stop = False
+    for k in range(kc + 1, len(ops)):
+        w = ops[k]
+        tgt = int(w[1])
+        if stop:
+            new_ops[k] = ["query", "99"]
+            continue
+        if tgt == j:
+            if w[0] in two_inst or w[0] in ("construct", "destroy"):
+                stop = True
+                new_ops[k] = ["query", "99"]
+                continue
+            new_ops[k] = [w[0], str(src)] + w[2:]
+            last = k
+        elif tgt == src:
+            new_ops[k] = ["query", "99"]
+        elif w[0] in two_inst and len(w) > 2 and int(w[2]) in (j, src):
+            new_ops[k] = ["query", "99"]
+    if last == kc:
+        return None
+    out, opn = [], 0
+    for l in case:
+        if l.startswith("op "):
+            out.append("op " + " ".join(new_ops[opn]))
+            opn += 1
+        elif l.startswith("beh "):
+            w = l.split()
+            bi, bo = int(w[1][1:]), int(w[2][2:])
+            if bo > kc and bi == src:
+                continue
+            if bo > kc and bi == j:
+                w[1] = "i%d" % src
+                out.append(" ".join(w))
+            else:
+                out.append(l)
+        else:
+            out.append(l)
+    return out, j, src, kc, last
+
+
+def inst_view(lines, inst, lo, hi, rename=None):
+    out = []
+    for l in lines:
+        w = l.split()
+        if len(w) < 3 or w[0] not in ("cb", "do", "api", "rejected", "log"):
+            continue
+        if w[1] != "i%d" % inst:
+            continue
+        if w[0] == "log":
+            continue
+        o = int(w[2][2:])
+        if lo < o <= hi:
+            if rename is not None:
+                w[1] = "i%d" % rename
+            out.append(" ".join(w))
+    return out
+
+
+def metamorphic(prop, case, impl_lines, rerun):
+    """implementation-only twins: returns a finding text or None"""
+    if rerun is None:
+        return None
+    if prop == "C16":
+        if not any(l.startswith("log ") for l in impl_lines):
+            return None
+        t = rerun(twin_nolog(case))
+        if t is None:
+            return None
+        a, b = strip_logs(impl_lines[1:]), strip_logs(t[1:])
+        if a != b:
+            k = next((q for q in range(min(len(a), len(b))) if a[q] != b[q]), min(len(a), len(b)))
+            return "the same history runs differently with and without a logger attached; first difference: with logger '%s', without '%s'" % (
+                a[k] if k < len(a) else "<end>", b[k] if k < len(b) else "<end>")
+    if prop == "C17":
+        for byte in (0, 255, 90):
+            tc = twin_fill(case, byte)
+            if tc == case:
+                continue
+            t = rerun(tc)
+            if t is not None and t[1:] != impl_lines[1:]:
+                k = next((q for q in range(1, min(len(t), len(impl_lines))) if t[q] != impl_lines[q]), min(len(t), len(impl_lines)))
+                return "the same history behaves differently when the storage is pre-filled with byte %d; first difference: '%s' vs '%s'" % (
+                    byte, impl_lines[k] if k < len(impl_lines) else "<end>", t[k] if k < len(t) else "<end>")
+        tw = twin_copy(case, impl_lines)
+        if tw:
+            tc, j, src, kc, last = tw
+            t = rerun(tc)
+            if t is not None:
+                a = inst_view(impl_lines, j, kc, last, rename=src)
+                b = inst_view(t, src, kc, last)
+                if a != b:
+                    k = next((q for q in range(min(len(a), len(b))) if a[q] != b[q]), min(len(a), len(b)))
+                    return "after op%d (copy %d <- %d) the copy does not respond like the original would to the same calls; first difference: copy '%s', original '%s'" % (
+                        kc, j, src, a[k] if k < len(a) else "<end>", b[k] if k < len(b) else "<end>")
+    return None
+
+
+ORACLES = {"C01": c01, "C02": c02, "C03": c02, "C04": c04, "C05": c05, "C06": c06, "C11": c02, "C12": c12,
+           "C07": c07, "C08": c08, "C09": c09, "C10": c10, "C16": c16, "C17": c17}
+NEEDS_CASE = ("C07", "C08", "C09", "C10", "C16", "C17")
+
+
+def run(prop, case, impl_lines, rerun=None):
+    """`case`: the case's lines (or just its cfg line for the oracles that need nothing else)"""
     f = ORACLES.get(prop)
     if not f:
         return None
     try:
-        return f(Cfg(cfg_line), parse(impl_lines))
+        if isinstance(case, str):
+            cfg_line, case = case, None
+        else:
+            cfg_line = case[1]
+        cfg, evs = Cfg(cfg_line), parse(impl_lines)
+        if prop in NEEDS_CASE:
+            if case is None:
+                return None
+            v = f(cfg, evs, case)
+            return v or metamorphic(prop, case, impl_lines, rerun)
+        return f(cfg, evs)
     except Exception as ex:   # an oracle crash must never become a false alarm
+        import os
+        if os.environ.get("VERIF_ORACLE_DEBUG"):
+            raise
         return None
